@@ -92,37 +92,54 @@ _HOOKS = {"records": None}
 
 
 def install_hooks():
-    """wrap make_unconstrained / create_jacobians / create_meanfield where the builders look them up, to record
-    (deep copy of input, outputs) of every REAL call; idempotent"""
+    """record (deep copy of input, outputs) of every REAL outermost call of the public functions make_unconstrained /
+    create_jacobians / create_variational_model.  The functions are wrapped BY IDENTITY in every loaded torchtree.cli module
+    that holds them (where they are defined and wherever they are imported or re-exported), so it does not matter which
+    module a builder - or a helper the builders delegate to - looks them up in; nested (recursive) calls are not recorded.
+    Idempotent."""
+    import sys
+
     import torchtree.cli.advi as advi
-    import torchtree.cli.hmc as hmc
-    import torchtree.cli.map as map_
-    import torchtree.cli.mcmc as mcmc
+    import torchtree.cli.hmc  # noqa: F401
+    import torchtree.cli.jacobians as jacobians
+    import torchtree.cli.map  # noqa: F401
+    import torchtree.cli.mcmc  # noqa: F401
+    import torchtree.cli.utils as utils
 
     if getattr(install_hooks, "done", False):
         return
     install_hooks.done = True
+    depth = {}
 
-    def wrap(mod, name, kind, idx=0):
-        real = getattr(mod, name)
-
+    def wrap(real, kind, idx=0):
         def w(*a, **k):
             rec = _HOOKS["records"]
-            before = copy.deepcopy(a[idx]) if rec is not None else None
-            out = real(*a, **k)
-            if rec is not None:
-                rec.append({"fn": kind, "module": mod.__name__.split(".")[-1], "before": before,
+            outer = depth.get(kind, 0) == 0
+            before = copy.deepcopy(a[idx]) if rec is not None and outer and len(a) > idx else None
+            depth[kind] = depth.get(kind, 0) + 1
+            try:
+                out = real(*a, **k)
+            finally:
+                depth[kind] -= 1
+            if rec is not None and outer and len(a) > idx:
+                rec.append({"fn": kind, "module": _HOOKS.get("cmd"), "before": before,
                             "after": copy.deepcopy(a[idx]), "out": copy.deepcopy(out)})
             return out
 
         w.__wrapped__ = real
-        setattr(mod, name, w)
+        for name, mod in list(sys.modules.items()):
+            if mod is None or not name.startswith("torchtree.cli"):
+                continue
+            for attr, val in list(vars(mod).items()):
+                if val is real:
+                    setattr(mod, attr, w)
 
-    for mod in (hmc, mcmc, map_):
-        wrap(mod, "make_unconstrained", "make_unconstrained")
-    for mod in (hmc, mcmc, advi):
-        wrap(mod, "create_jacobians", "create_jacobians")
-    wrap(advi, "create_variational_model", "variational", idx=1)
+    for mod, name, kind, idx in ((utils, "make_unconstrained", "make_unconstrained", 0),
+                                 (jacobians, "create_jacobians", "create_jacobians", 0),
+                                 (advi, "create_variational_model", "variational", 1)):
+        real = getattr(mod, name, None)
+        if callable(real):
+            wrap(real, kind, idx)
 
 
 def build_parser():
@@ -153,6 +170,7 @@ def run_cli(argv, record=True):
     err = io.StringIO()
     recs = [] if record else None
     _HOOKS["records"] = recs
+    _HOOKS["cmd"] = argv[0] if argv else None
     old_dtype = torch.get_default_dtype()
     torch.set_default_dtype(torch.float32)  # the CLI process never changes torch's default
     try:
